@@ -185,12 +185,52 @@ pub fn check_pool(pool: &Vec<String>, st: &mut Stats) -> Result<(), Failure> {
             let _ = serde_json::from_str::<std::collections::HashMap<String, Range>>(js).is_ok();
         })?;
     }
+    // serde through other front ends of the data model: byte buffers (incl. truncated UTF-8), borrowed and
+    // owned strings, numbers, sequences
+    for s in pool.iter().take(2) {
+        let bytes = s.as_bytes();
+        for cut in [bytes.len(), bytes.len().saturating_sub(1), bytes.len().saturating_sub(2)] {
+            let buf = &bytes[..cut];
+            g("Deserialize from a byte buffer", &s, || {
+                use serde::de::value::{BorrowedBytesDeserializer, BytesDeserializer, Error as DeError};
+                use serde::Deserialize;
+                let _ = Version::deserialize(BytesDeserializer::<DeError>::new(buf)).is_ok();
+                let _ = Range::deserialize(BytesDeserializer::<DeError>::new(buf)).is_ok();
+                let _ = Version::deserialize(BorrowedBytesDeserializer::<DeError>::new(buf)).is_ok();
+                let _ = Range::deserialize(BorrowedBytesDeserializer::<DeError>::new(buf)).is_ok();
+            })?;
+        }
+        g("Deserialize from str / String / u64 / seq deserializers", &s, || {
+            use serde::de::value::{BorrowedStrDeserializer, Error as DeError, SeqDeserializer, StrDeserializer, StringDeserializer, U64Deserializer};
+            use serde::Deserialize;
+            let _ = Version::deserialize(StrDeserializer::<DeError>::new(s)).is_ok();
+            let _ = Range::deserialize(StrDeserializer::<DeError>::new(s)).is_ok();
+            let _ = Version::deserialize(BorrowedStrDeserializer::<DeError>::new(s)).is_ok();
+            let _ = Range::deserialize(BorrowedStrDeserializer::<DeError>::new(s)).is_ok();
+            let _ = Version::deserialize(StringDeserializer::<DeError>::new(s.clone())).is_ok();
+            let _ = Range::deserialize(StringDeserializer::<DeError>::new(s.clone())).is_ok();
+            let _ = Version::deserialize(U64Deserializer::<DeError>::new(s.len() as u64)).is_ok();
+            let _ = Range::deserialize(SeqDeserializer::<_, DeError>::new(vec![1u8, 2, 3].into_iter())).is_ok();
+        })?;
+    }
     // versions built by tuple conversion of non-negative values (incl. beyond MAX_SAFE_INTEGER)
     let extra_v: Vec<(String, Version)> = vec![
         ("Version::from((u64::MAX, 0u64, u64::MAX))".into(), Version::from((u64::MAX, 0u64, u64::MAX))),
         ("Version::from((0u8, 0u8, 0u8, 0u8))".into(), Version::from((0u8, 0u8, 0u8, 0u8))),
         ("Version::from((i64::MAX, i64::MAX, i64::MAX, i64::MAX))".into(), Version::from((i64::MAX, i64::MAX, i64::MAX, i64::MAX))),
     ];
+    // struct literals: components around 2^63 / 2^64 with prerelease tags (signed casts, subtractions, +1)
+    let mut extra_v = extra_v;
+    for (a, b, c) in [(1u64 << 63, 0u64, 0u64), (1, 2, 1u64 << 63), (1, (1u64 << 63) + 2, 3), (u64::MAX, u64::MAX, u64::MAX), (0, 0, (1u64 << 63) - 1), ((1u64 << 63) + 1, 2, 3)] {
+        for tag in ["rc", "0", "beta"] {
+            let mut v = Version::from((a, b, c));
+            v.pre_release = vec![match tag.parse::<u64>() {
+                Ok(n) => nodejs_semver::Identifier::Numeric(n),
+                Err(_) => nodejs_semver::Identifier::AlphaNumeric(tag.to_string()),
+            }];
+            extra_v.push((format!("Version{{{}.{}.{}-{}}}", a, b, c, tag), v));
+        }
+    }
     let all_versions: Vec<&(String, Version)> = versions.iter().chain(extra_v.iter()).collect();
     // version x version, version x range
     let vlist: Vec<Version> = all_versions.iter().map(|(_, v)| v.clone()).collect();
@@ -544,6 +584,13 @@ pub fn risky_items(cfg: &RunCfg) -> Vec<Risky> {
             out.push(Risky { kind: format!("ops:{}", fam), n: *n });
         }
     }
+    // results fed back as operands many times (capacity / size blow-up), and both operands large
+    for n in [6usize, 14, 40] {
+        out.push(Risky { kind: "iterate".into(), n });
+    }
+    for n in [120usize, 240] {
+        out.push(Risky { kind: "both-large".into(), n });
+    }
     out
 }
 
@@ -581,6 +628,66 @@ pub fn risky_body(item: &Risky) -> Result<(), Failure> {
                 let _ = Range::parse(&t).map(|x| x == r);
             })?,
             Err(e) => exercise_error("Range::parse", &s, &e)?,
+        }
+        return Ok(());
+    }
+    if item.kind == "iterate" {
+        // r = r op r / r op k, n rounds: the number of alternatives stays small, so must time and memory
+        for (start, other) in [("1 || 2", ">=1.5.0 || <1.2.0"), ("1.x || >=3.0.0-rc <4 || 5.0.0", "* || 3"), (">=1.0.0 <9.0.0", "2.0.0 || 4.0.0 || 6.0.0")] {
+            let (mut r, k) = match (Range::parse(start), Range::parse(other)) {
+                (Ok(r), Ok(k)) => (r, k),
+                _ => continue,
+            };
+            for round in 0..item.n {
+                let next = g("repeated self-intersection / difference / intersection with a fixed operand", &(start, other, round), || {
+                    let a = r.intersect(&r);
+                    let b = a.as_ref().and_then(|x| x.intersect(&k)).or_else(|| a.clone());
+                    let c = b.as_ref().and_then(|x| x.difference(&k)).or(b);
+                    c.and_then(|x| x.intersect(&x))
+                })?;
+                match next {
+                    Some(n) if alts(&n) <= MAX_ALTS => r = n,
+                    _ => break,
+                }
+            }
+        }
+        return Ok(());
+    }
+    if item.kind == "both-large" {
+        // many overlapping alternatives on both sides: the inherent cost is |A|*|B|; measure n vs 2n
+        let mk = |n: usize| {
+            let a: Vec<String> = (1..=n).map(|k| format!(">={}.0.0", k)).collect();
+            let b: Vec<String> = (1..=n).map(|k| format!("<{}.0.0", 1000 + k)).collect();
+            (Range::parse(a.join("||")), Range::parse(b.join("||")))
+        };
+        let time = |n: usize| -> Result<f64, Failure> {
+            let (a, b) = match mk(n) {
+                (Ok(a), Ok(b)) => (a, b),
+                _ => return Ok(0.0),
+            };
+            let t0 = thread_cpu();
+            g("operations with two many-alternative operands", &n, || {
+                let _ = a.difference(&b).map(|r| r.to_string().len());
+                let _ = a.intersect(&b).map(|r| r.to_string().len());
+                let _ = (a.allows_any(&b), a.allows_all(&b));
+            })?;
+            Ok(thread_cpu() - t0)
+        };
+        let mut flagged = 0;
+        let mut ratios = vec![];
+        for _ in 0..3 {
+            let (t1, t2) = (time(item.n)?, time(item.n * 2)?);
+            let ratio = t2 / t1.max(1e-6);
+            ratios.push(ratio);
+            if t2 > 0.05 && ratio > 6.5 {
+                flagged += 1;
+            }
+        }
+        if flagged == 3 {
+            return Err(Failure::new(
+                "super-quadratic-set-operation",
+                format!("intersect/difference/allows_* on two ranges with n overlapping alternatives each: CPU time grows by {:?} from n={} to n={} (the inherent |A|*|B| cost gives ~4, cubic ~8)", ratios, item.n, item.n * 2),
+            ));
         }
         return Ok(());
     }
